@@ -36,6 +36,8 @@ type Harness struct {
 	Stubs               []string
 	Enumerative         bool
 	OnlyTier            int // 0 both, 1 quick only, 2 thorough only
+	FloatHavoc          bool   // floats derived from symbolic data become arbitrary values (sound over-approximation for panic obligations)
+	Label               string // distinguishes several registrations of one function
 }
 
 type Check struct {
@@ -159,6 +161,8 @@ type harnessReport struct {
 	ByAssert      map[string]int `json:"obligations_by_assertion"`
 	Events        map[string]int `json:"write_events,omitempty"`
 	FunctionCount int            `json:"functions_encoded_count"`
+	Havocs        int            `json:"float_havocs,omitempty"`
+	Cuts          int            `json:"allocation_cuts,omitempty"`
 }
 
 type violation struct {
@@ -232,7 +236,10 @@ func CmdCheck(args []string) int {
 	var evSamples []interface{}
 	for hi := range chk.Harnesses {
 		h := &chk.Harnesses[hi]
-		if *only != "" && h.Fn != *only {
+		if h.Label == "" {
+			h.Label = h.Fn
+		}
+		if *only != "" && h.Fn != *only && h.Label != *only {
 			continue
 		}
 		if h.OnlyTier == 1 && tier != 0 || h.OnlyTier == 2 && tier != 1 {
@@ -254,6 +261,7 @@ func CmdCheck(args []string) int {
 		}
 		cfg.PanicsAreViolations = h.PanicsAreViolations
 		cfg.AllocCut = h.AllocCut
+		cfg.FloatHavoc = h.FloatHavoc
 		if h.MaxSteps > 0 {
 			cfg.MaxSteps = h.MaxSteps
 		}
@@ -270,7 +278,7 @@ func CmdCheck(args []string) int {
 		run := NewRun(prog, f, cfg)
 		run.Name = h.Fn
 		run.Known = known
-		rep := harnessReport{Name: h.Fn, Pkg: h.Pkg, Desc: h.Desc, Bound: h.Bounds[tier], Stops: map[string]int{}, ByAssert: map[string]int{}, Events: map[string]int{}, Enumerative: h.Enumerative}
+		rep := harnessReport{Name: h.Label, Pkg: h.Pkg, Desc: h.Desc, Bound: h.Bounds[tier], Stops: map[string]int{}, ByAssert: map[string]int{}, Events: map[string]int{}, Enumerative: h.Enumerative}
 		stopSeen := map[string]bool{}
 		seenViol := map[string]int{}
 		run.Hooks.OnPath = func(r *PathResult) {
@@ -280,6 +288,14 @@ func CmdCheck(args []string) int {
 			for _, e := range r.Events {
 				rep.Events[e.Kind+" @"+e.Pos]++
 			}
+			if r.AutoHeld > 0 {
+				rep.Obligations += r.AutoHeld
+				rep.Discharged += r.AutoHeld
+				rep.NonTrivial += r.AutoHeld
+				rep.ByAssert["panic-site obligations (index/slice/nil/div/shift/make/assert) shown unreachable by the solver"] += r.AutoHeld
+			}
+			rep.Havocs += r.Havocs
+			rep.Cuts += r.Cuts
 			for _, o := range r.Oblig {
 				isPanic := strings.HasPrefix(o.Kind, "panic:")
 				rep.Obligations++
@@ -356,7 +372,8 @@ func CmdCheck(args []string) int {
 		if rep.Early != "" {
 			fmt.Fprintf(os.Stderr, "INCONCLUSIVE %s: %s\n", h.Fn, rep.Early)
 		}
-		fmt.Fprintf(os.Stderr, "harness %-28s paths=%d oblig=%d discharged=%d violated=%d known=%d unknown=%d stops=%v wall=%.1fs solver=%.1fs\n", h.Fn, rep.Paths, rep.Obligations, rep.Discharged, rep.Violated, rep.Known, rep.Unknown, rep.Stops, rep.WallS, rep.SolverTimeS)
+		fmt.Fprintf(os.Stderr, "harness %-34s paths=%d oblig=%d discharged=%d violated=%d known=%d unknown=%d stops=%v wall=%.1fs solver=%.1fs\n", h.Label, rep.Paths, rep.Obligations, rep.Discharged, rep.Violated, rep.Known, rep.Unknown, rep.Stops, rep.WallS, rep.SolverTimeS)
+		_ = h.Fn
 		reports = append(reports, rep)
 	}
 	// ---- native phase: replay violations + known hits, validate samples
@@ -469,7 +486,7 @@ func CmdCheck(args []string) int {
 				if okk {
 					validated++
 					for ri := range reports {
-						if reports[ri].Name == s.h.Fn {
+						if reports[ri].Name == s.h.Label {
 							reports[ri].Validated++
 						}
 					}
@@ -481,7 +498,14 @@ func CmdCheck(args []string) int {
 						evSamples = append(evSamples, map[string]interface{}{"kind": "path validated against native build", "harness": s.h.Fn, "inputs": trimModel(s.res.Model, 16), "decisions": len(s.res.Decs), "path_condition_conjuncts": s.res.PCLen, "outputs_head": outs})
 					}
 				} else {
-					m := fmt.Sprintf("%s: translator validation: engine path (stop=%s, %d outs) vs native (status=%s %s, %d outs) inputs=%v", s.h.Fn, s.res.Stop.Kind(), len(s.res.OutEval), r.Status, r.Msg, len(r.Outs), trimModel(s.res.Model, 24))
+					eo, no := s.res.OutEval, r.Outs
+					if len(eo) > 6 {
+						eo = eo[:6]
+					}
+					if len(no) > 6 {
+						no = no[:6]
+					}
+					m := fmt.Sprintf("%s: translator validation: engine path (stop=%s %s, outs %v) vs native (status=%s %s, outs %v) inputs=%v", s.h.Label, s.res.Stop.Kind(), s.res.Stop.msg, eo, r.Status, r.Msg, no, trimModel(s.res.Model, 24))
 					mismatches = append(mismatches, m)
 					fmt.Fprintf(os.Stderr, "ENGINE-ERROR %s\n", m)
 				}
@@ -686,5 +710,53 @@ func CmdReplay(args []string) int {
 		fmt.Printf("VIOLATION property=%s replay=%s\n", rf.Property, args[0])
 		return 1
 	}
+	return 0
+}
+
+// CmdNative runs one harness natively with given inputs and prints the result (debug aid).
+func CmdNative(args []string) int {
+	fs := flag.NewFlagSet("native", flag.ExitOnError)
+	pkg := fs.String("pkg", "", "")
+	fn := fs.String("fn", "", "")
+	inputs := fs.String("inputs", "", "k=v,...")
+	params := fs.String("params", "", "k=v,...")
+	fs.Parse(args)
+	os.Setenv("PATH", "/opt/veriftools/go1.26.8/bin:"+os.Getenv("PATH"))
+	in := map[string]uint64{}
+	for _, kv := range strings.Split(*inputs, ",") {
+		if i := strings.IndexByte(kv, '='); i > 0 {
+			v, _ := strconv.ParseInt(kv[i+1:], 10, 64)
+			in[kv[:i]] = uint64(v)
+		}
+	}
+	pm := map[string]int{}
+	for _, kv := range strings.Split(*params, ",") {
+		if i := strings.IndexByte(kv, '='); i > 0 {
+			v, _ := strconv.Atoi(kv[i+1:])
+			pm[kv[:i]] = v
+		}
+	}
+	hdir := filepath.Join(VerifDir, "harness")
+	pkgname := filepath.Base(*pkg)
+	ents, _ := os.ReadDir(filepath.Join(hdir, *pkg))
+	for _, e := range ents {
+		if strings.HasSuffix(e.Name(), ".go") {
+			src, _ := os.ReadFile(filepath.Join(hdir, *pkg, e.Name()))
+			for _, l := range strings.Split(string(src), "\n") {
+				if strings.HasPrefix(l, "package ") {
+					pkgname = strings.TrimSpace(strings.TrimPrefix(l, "package "))
+					break
+				}
+			}
+			break
+		}
+	}
+	res, err := RunNative(hdir, *pkg, pkgname, []NativeCase{{Harness: *fn, Inputs: in, Params: pm}})
+	if err != nil {
+		fmt.Fprintln(os.Stderr, err)
+		return 2
+	}
+	b, _ := json.MarshalIndent(res[0], "", " ")
+	fmt.Println(string(b))
 	return 0
 }
